@@ -81,6 +81,14 @@ inductive DErr
   | format
   deriving DecidableEq, Repr
 
+instance {ε α : Type} [DecidableEq ε] [DecidableEq α] : DecidableEq (Except ε α) := fun a b =>
+  match a, b with
+  | .ok x, .ok y => if h : x = y then isTrue (by rw [h]) else isFalse (fun hc => by cases hc; exact h rfl)
+  | .error x, .error y =>
+    if h : x = y then isTrue (by rw [h]) else isFalse (fun hc => by cases hc; exact h rfl)
+  | .ok _, .error _ => isFalse (fun hc => by cases hc)
+  | .error _, .ok _ => isFalse (fun hc => by cases hc)
+
 structure DOut (α : Type) where
   res : Except DErr (α × Bytes)
   allocs : List Nat
